@@ -1,6 +1,7 @@
 import PnaVerif.Model.Cli.Edit
 import PnaVerif.Model.Cli.Update
 import PnaVerif.Model.Cli.List
+import PnaVerif.Model.Cli.Extract
 /- Wire format of logical archives for the driver protocol (mirror of harness/src/cli.rs). -/
 namespace Pna.Cli.Wire
 open Pna Pna.Cli
@@ -183,6 +184,64 @@ def handleList (toks : List String) : String :=
           s!"{toHexW r.name}|{toHex [kindChar r.kind]}|{(r.rawSize.getD 0)}|{r.compressedSize}"))
       else "bad-op"
     | _, _ => "bad-op"
+  | _ => "bad-op"
+
+open Pna.Fs in
+/-- initial file system: `D<abs path hex>` | `F<path>=<content>` | `L<path>=<target>`, `;`-separated -/
+def fs? (s : String) : Option Fs :=
+  let toks := if s == "." then [] else s.splitOn ";"
+  toks.foldlM (fun (fs : Fs) t =>
+    let body := (t.drop 1).toString
+    if t.startsWith "D" then do
+      let p ← ofHex body
+      pure (fs.setNode (comps p) .dir)
+    else match body.splitOn "=" with
+      | [p, v] => do
+        let p ← ofHex p; let v ← ofHex v
+        if t.startsWith "F" then
+          let ino := fs.nextIno
+          pure { (fs.setNode (comps p) (.file ino)).setContent ino v with nextIno := ino + 1 }
+        else if t.startsWith "L" then pure (fs.setNode (comps p) (.link v))
+        else none
+      | _ => none) ⟨[], [], 1⟩
+
+open Pna.Fs in
+/-- canonical dump of everything below `root`: sorted by path; files print their content and the
+    smallest path sharing their inode (hard-link group) -/
+def fsDump (fs : Fs) (root : Fs.Path) : String :=
+  let below := fs.nodes.filter fun (p, _) => root.isPrefixOf p && p != root
+  let rel := fun (p : Fs.Path) => joinSlash (p.drop root.length)
+  let sorted := below.toArray.qsort (fun a b => bytesLt (rel a.1) (rel b.1)) |>.toList
+  let groupOf := fun (ino : Nat) =>
+    let members := (below.filter fun (_, n) => n == .file ino).map (fun q => rel q.1)
+    members.foldl (fun m x => if bytesLt x m then x else m) (members.headD [])
+  let items := sorted.map fun (p, n) =>
+    match n with
+    | .dir => "D" ++ toHexW (rel p)
+    | .link t => "L" ++ toHexW (rel p) ++ "=" ++ toHexW t
+    | .file ino => "F" ++ toHexW (rel p) ++ "=" ++ toHexW (fs.content ino) ++ "@" ++ toHexW (groupOf ino)
+  if items.isEmpty then "." else ";".intercalate items
+
+def xentries? (s : String) : Option (List XEntry) :=
+  if s == "." then some [] else
+    (s.splitOn ";").mapM fun t =>
+      match t.splitOn "," with
+      | [n, k, c] => do let n ← ofHex n; let k ← k.toNat?; let c ← ofHex c; pure ⟨n, k, c⟩
+      | _ => none
+
+/-- `extract <overwrite> <cwd hex> <outdir hex> <fs> <entries>` -/
+def handleExtract (toks : List String) : String :=
+  match toks with
+  | [ow, cwd, out, fs, es] =>
+    match ofHex cwd, ofHex out, fs? fs, xentries? es with
+    | some cwd, some out, some fs, some es =>
+      let cwdP := Fs.comps cwd
+      let (fs', err) := extractAll (ow == "1") cwdP out fs es
+      let res := match err with
+        | none => "ok"
+        | some _ => "err"
+      res ++ " " ++ fsDump fs' cwdP
+    | _, _, _, _ => "bad-op"
   | _ => "bad-op"
 
 end Pna.Cli.Wire
